@@ -77,6 +77,7 @@ def handle : Handler
   | "pre.rstrip", args => str1 (fun s => hexStr (rstrip s)) args
   | "pre.lower", args => str1 (fun s => hexStr (lower s)) args
   | "pre.upper", args => str1 (fun s => hexStr (upper s)) args
+  | "pre.asciiignore", args => str1 (fun s => hexStr (asciiIgnore s)) args
   | "pre.isascii", args => str1 (fun s => outBool (isascii s)) args
   | "pre.splitws", args => str1 (fun s => outList hexStr (splitWs s)) args
   | "pre.join", [sep, l] =>
@@ -84,6 +85,8 @@ def handle : Handler
     | some sep, some l => some (hexStr (join sep l))
     | _, _ => some badArgs
   | "pre.plainint", args => str1 (fun s => outExc outInt (plainInt s)) args
+  | "pre.plainintre", args => str1 (fun s => outBool (plainIntReFullmatch s).isSome) args
+  | "pre.pyint", args => str1 (fun s => outExc outInt (pyIntPlain s)) args
   | _, _ => none
 
 end Wz.Driver.PyPrelude
